@@ -250,6 +250,11 @@ v("C15", "props-keyed-on-data-flag", WD, "        elif include_drf_properties:\n
 v("C15", "created-deleted-swapped", WD, "                event = FileDeletedEvent(event.src_path)\n            elif dest_match and not src_match:\n                event = FileCreatedEvent(event.dest_path)",
   "                event = FileCreatedEvent(event.src_path)\n            elif dest_match and not src_match:\n                event = FileDeletedEvent(event.dest_path)", rules=["C15.R4"])
 v("C15", "window-exclusive", WD, "if self.starttime is not None and time < self.starttime:", "if self.starttime is not None and time <= self.starttime:", rules=["C15.R5"])
+v("C15", "timeless-names-get-time-zero", WD, "            # no time, don't need to check it\n            return True\n", "            secs = 0\n", rules=["C15.R5"])
+v("C15", "end-bound-nonstrict", WD, "if self.endtime is not None and time > self.endtime:", "if self.endtime is not None and time >= self.endtime:", rules=["C15.R5"])
+v("C15", "twin-window-verdict-as-expression", WD, "        if self.endtime is not None and time > self.endtime:\n            return False\n        return True\n",
+  "        return not (self.endtime is not None and time > self.endtime)\n", expect="silent")
+v("C15", "twin-window-bounds-swapped-operands", WD, "if self.starttime is not None and time < self.starttime:", "if not (self.starttime is None or self.starttime <= time):", expect="silent")
 v("C15", "unguarded-group", WD, "        try:\n            msecs = int(match.group(\"frac\"))\n        except (IndexError, TypeError):\n            msecs = 0\n",
   "        msecs = int(match.group(\"frac\"))\n", rules=["C15.R5"])
 
